@@ -206,7 +206,11 @@ def judgeCase (c : Case) : M Unit := do
   let guardEntailed : String :=
     if c.form == 1 then "-"
     else b2s (subsetB (2*n) (c.b.map (Con.shift n)) (elimVars (List.range n) (tidy c.a)))
-  IO.println s!"caseinfo {c.ln} kind={c.kind} form={c.form} n={n} tmpl={c.tmpl} closed={b2s closed} empty={b2s emptyR} dec={ob2s dec} exists={ob2s exists?} rows={R.length} gens={c.gens.length} guard_entailed={guardEntailed} verdicts={vs}"
+  -- (classification only) verdict of the proved-sound model of the UNCHANGED PR encoding on this case
+  let prModel : Option Bool :=
+    if c.form == 1 then certify (prOrigDim (approxIneq R)) (prOrigSystem n (approxIneq R))
+    else certify (prDim (approxIneq c.b) (approxIneq c.a)) (prSystem n (approxIneq c.b) (approxIneq c.a))
+  IO.println s!"caseinfo {c.ln} kind={c.kind} form={c.form} n={n} tmpl={c.tmpl} closed={b2s closed} empty={b2s emptyR} dec={ob2s dec} exists={ob2s exists?} rows={R.length} gens={c.gens.length} guard_entailed={guardEntailed} pr_model={ob2s prModel} verdicts={vs}"
 
 def main (_args : List String) : IO UInt32 := do
   let stdin ← IO.getStdin
